@@ -5,6 +5,10 @@ correspondence:  Delta payload (every category, paths as Delta parses them) and 
                  result of applying it, implementation vs model, on generated pairs
 direct oracle:   the statement itself: typed equality of t1 + delta with t2, inputs
                  unmodified, no error logged; chains of edits; ignore_order clause
+streams:         harness/c01chain.py (chains on the running result, hypothesis okb as a Coq boolean),
+                 harness/c01np.py (numpy arrays edited in place), harness/c01free.py (tuples of different
+                 length + hand-built payloads against the faithful refinement Delta/DeltaFaithful.v);
+                 extension streams (recorded, never a violation): IgnoreOrderBeyondText, SharedSubObjects, Obj
 """
 import copy
 import itertools
@@ -17,7 +21,9 @@ COQ_NEEDS = []
 RULE = ("pairs (t1,t2): exhaustive small universe (atoms {None,True,2,0.5,'a',''}, containers list/dict/set of length <= 2, depth <= 2; "
         "thorough: all ordered pairs, quick: seeded slice), random nested values with 1-3 edits, atom lists (length <= 12, 4-atom alphabet, "
         "insert/delete/replace/move/duplicate/rotate) planted under 0-2 container levels, edit chains of length <= 6; "
-        "x zip_ordered_iterables x threshold {0,0.33,0.9} x verbose {0,1,2} x view {text,tree} x always_include_values. "
+        "x zip_ordered_iterables x threshold {0,0.33,0.9} x verbose {0,1,2} x view {text,tree} x always_include_values x operand order "
+        "(t1 + delta, delta + t1); same-shape numeric numpy arrays (1-3 dimensions, 4 dtypes, 3 memory layouts); chains of <= 4 steps on the "
+        "running result from a reordered start; tuples of different length and hand-built payloads (c01free). "
         "Non-trivial = t1 != t2 (non-empty delta); distinct by (t1,t2,config).")
 TRUSTED = ["difflib opcodes, unified-diff text, DeepHash of set members, Python's constructor calls new_type(old_value) (conv), the order of the "
            "sorted() passes of Delta and (ignore_order clause) the pairing of _get_most_in_common_pairs_in_iterables enter the model as oracles; "
@@ -99,6 +105,16 @@ def m_tuple_container(case, holds_fn=None):
         return False
     if case.get("clause") == RAISED and case.get("exc_class") not in ("RuntimeError", "TypeError", "AttributeError", "DeltaError"):
         return False
+    if case.get("clause") == DIFFERS and "errors" in case and not case["errors"]:
+        # the failed write into a tuple is always logged; the only SILENT outcome of F4's mechanism is a coerced tuple
+        # that is not restored (a tuple nested in a coerced tuple: the result is t2 with some tuple left as a list)
+        t2 = eval(case["t2"])
+        try:
+            r = eval(case.get("observed", ""))
+        except Exception:
+            return False
+        if V.typed_eq(r, t2) or not V.typed_eq(detuple(r), detuple(t2)):
+            return False
     t1, t2, cfg, always = _inputs(case)
     return (holds_fn or holds)(detuple(t1), detuple(t2), cfg, always)
 
@@ -361,14 +377,18 @@ def chains(ctx, n):
         base = copy.deepcopy(vals[0])
         ok = True
         for i, (a, b) in enumerate(zip(vals, vals[1:])):
+            clause, exc_class, nerr = DIFFERS, None, 0
             try:
-                base = base + Delta(DeepDiff(copy.deepcopy(a), copy.deepcopy(b), zip_ordered_iterables=zip_, threshold_to_diff_deeper=thr))
-                good = V.typed_eq(base, b)
+                with DC.Counting() as cnt:
+                    base = base + Delta(DeepDiff(copy.deepcopy(a), copy.deepcopy(b), zip_ordered_iterables=zip_, threshold_to_diff_deeper=thr))
+                good, nerr = V.typed_eq(base, b), cnt.n
             except Exception as e:
-                good, base = False, "raised %s" % type(e).__name__
+                good, base, clause, exc_class = False, "raised %s" % type(e).__name__, RAISED, type(e).__name__
             if not good:
-                case = dict(chain=[repr(v) for v in vals], step=i, t1=repr(a), t2=repr(b), observed=repr(base),
+                case = dict(chain=[repr(v) for v in vals], step=i, t1=repr(a), t2=repr(b), observed=repr(base), clause=clause, errors=nerr,
                             cfg=dict(zip_ordered_iterables=zip_, threshold_to_diff_deeper=thr), **describe(a, b))
+                if exc_class:
+                    case["exc_class"] = exc_class
                 ctx.fail(case, "edit chain: step %d does not reproduce t%d" % (i, i + 1))
                 ok = False
                 break
@@ -423,7 +443,7 @@ def veq_base_clause(ctx, pairs, n):
             ctx.count("veq_base:outside_okb:constructor_call_on_the_reordered_value_differs")
         else:
             ctx.fail(dict(t1=repr(t1), t2=repr(t2), base=repr(base), observed=repr(r), errors=cnt.n, cfg=cfg,
-                          always_include_values=always, **describe(t1, t2)),
+                          clause=DIFFERS if not V.typed_eq(r, t2) else LOGGED, always_include_values=always, **describe(t1, t2)),
                      "reordered t1 + Delta(DeepDiff(t1,t2)) != t2")
         rem, add = DC.impl_orders(d)
         tp = DC.type_change_pairs(dd.tree)
